@@ -491,6 +491,10 @@ class Policy(object):
                 return d(st.sampled_from([0.07, 0.0725, 0.075, 0.0675]))
             if base == 'other_state_sales_tax':
                 return self.amount(0, 50)
+        if fbase == '1040_recovery_rebate_credit_wkst' and base.startswith('eip'):
+            # third economic impact payment received: none, the usual multiples of $1,400, or any amount (also more than the credit)
+            k_ = d(st.integers(0, 5))
+            return 0.0 if k_ == 0 else (self.amount(0, 7000) if k_ == 1 else 1400.0 * d(st.integers(1, 5)))
         if fbase == 'nc_d-400_ss':
             return self.amount(0, 2500) if d(st.integers(0, 4)) == 0 else 0.0
         if fbase == 'nc_d-400_sa':
